@@ -96,6 +96,7 @@ impl F {
         F { v: Ghost(i2r(n as int) / i2r(d as int)) }
     }
     pub fn exp(self) -> (o: F) ensures o.r() == exp_r(self.r()) { F { v: Ghost(exp_r(self.r())) } }
+    pub fn exp_m1(self) -> (o: F) ensures o.r() == exp_r(self.r()) - 1real { F { v: Ghost(exp_r(self.r()) - 1real) } }
     pub fn ln(self) -> (o: F) ensures o.r() == ln_r(self.r()) { F { v: Ghost(ln_r(self.r())) } }
     pub fn ln_1p(self) -> (o: F) ensures o.r() == ln_r(1real + self.r()) { F { v: Ghost(ln_r(1real + self.r())) } }
     pub fn sqrt(self) -> (o: F) ensures o.r() == sqrt_r(self.r()) { F { v: Ghost(sqrt_r(self.r())) } }
